@@ -1,6 +1,87 @@
-(* C12 -- every compiled grammar is well-formed GBNF.  ONLY theorem statements closed by `exact`. *)
-From OV Require Import Base.Strs Gen.GbnfGen Gbnf.Syntax Gbnf.Compiler Gbnf.Safe.
+(* C12 -- every compiled grammar is well-formed GBNF.  ONLY theorem statements closed by `exact`
+   (+ Definitions of the full / open statements). *)
+From OV Require Import Base.Strs Gen.GbnfGen Gbnf.Syntax Gbnf.Compiler Gbnf.Safe Gbnf.Facts.
+
+(* ---- for ALL strings: the literal escape is closed under the recogniser's literal scanner ---------- *)
+Theorem C12_escape_literal_is_closed_form : forall s, escape_literal s = flat_map gesc s.
+Proof. exact escape_literal_spec. Qed.
+
+Theorem C12_escape_literal_closed : forall s rest,
+  gbnf_literal (c_dq :: escape_literal s ++ c_dq :: rest) = Some (s, rest).
+Proof. exact escape_literal_closed. Qed.
+
+(* ---- for ALL names: characters of a sanitised rule name ------------------------------------------- *)
+Theorem C12_sanitize_charset : forall l, no_upper l = true -> forallb san_ok (sanitize_lowered l) = true.
+Proof. exact sanitize_charset. Qed.
+
+Theorem C12_lower_has_no_capital : forall s o, no_upper o = true -> no_upper (py_lower s o) = true.
+Proof. exact py_lower_no_upper. Qed.
+
+Theorem C12_sanitize_nonempty : forall l, sanitize_lowered l <> [].
+Proof. exact sanitize_nonempty. Qed.
+
+(* ---- the full statement, and why it is false of the faithful model ------------------------------------ *)
+Definition C12_compile_wf_full : Prop :=
+  forall s env, exists g, gbnf_parse (compile_schema s env) = Some g /\ wf g = true.
+
+(* the restriction the design aims at.  OPEN: not proved in this development (the per-line recogniser lemmas
+   were not finished); it is CHECKED on every generated schema of every run by harness/props/c12.py
+   ("safe_schema holds but the grammar is not well-formed" is reported as a broken obligation). *)
+Definition C12_compile_wf_under_safe_schema_OPEN : Prop :=
+  forall s env, safe_schema s env = true -> wf_text (compile_schema s env) = true.
+
+(* the hypothesis is satisfiable on a non-trivial schema, and the conclusion holds there *)
+Theorem C12_safe_schema_nonvacuous : safe_schema ex_schema true = true /\ wf_text (compile_schema ex_schema true) = true.
+Proof. exact safe_schema_example. Qed.
+
+(* field named CONTENT: the rule `content` is defined twice (wf code 4) *)
+Theorem C12_refuted_content : wf_text_code (compile_schema (sch [fld w_CONTENT [CReq]]) true) = 4%N.
+Proof. exact refuted_content. Qed.
+
+(* WS, FIELD, DOCUMENT, ROOT, CONTENT: each re-defines a structural rule *)
+Theorem C12_refuted_structural_name :
+  forallb (fun n => N.eqb (wf_text_code (compile_schema (sch [fld n [CReq]]) true)) 4) [w_WS; w_FIELD; w_DOCUMENT; w_ROOT; w_CONTENT] = true.
+Proof. exact refuted_structural_names. Qed.
+
+(* REGEX["^abc$"]: reference to the undefined rule abc (wf code 3) *)
+Theorem C12_refuted_anchor : wf_text_code (compile_schema (sch [fld w_NAME [CReq; CRegex w_anchor_abc]]) true) = 3%N.
+Proof. exact refuted_anchor. Qed.
+
+(* STATUS with Status: one sanitised name, defined twice (no underscore involved) *)
+Theorem C12_refuted_collision : wf_text_code (compile_schema (sch [fld w_STATUS [CReq]; fld w_Status [COpt]]) true) = 4%N.
+Proof. exact refuted_collision_case. Qed.
+
+(* A-B with A_B: one rule name; unparsable (underscore) and a duplicate in the underscore-tolerant dialect *)
+Theorem C12_refuted_collision_dash_underscore :
+  rule_name_of (fld w_A_dash_B [CReq]) = rule_name_of (fld w_A_us_B [CReq]) /\
+  wf_text_code (compile_schema (sch [fld w_A_dash_B [CReq]; fld w_A_us_B [CReq]]) true) = 1%N /\
+  wf_text_code_g true (compile_schema (sch [fld w_A_dash_B [CReq]; fld w_A_us_B [CReq]]) true) = 4%N.
+Proof. exact refuted_collision_dash_us. Qed.
+
+(* an underscore in a rule name: does not parse under llama.cpp's syntax; nothing else is wrong with it *)
+Theorem C12_refuted_underscore :
+  wf_text_code (compile_schema (sch [fld w_A_us_B [CReq]]) true) = 1%N /\
+  wf_text_code_g true (compile_schema (sch [fld w_A_us_B [CReq]]) true) = 0%N.
+Proof. exact refuted_underscore. Qed.
+
+Theorem C12_compile_wf_refuted : exists s env, wf_text (compile_schema s env) = false.
+Proof. exists (sch [fld w_CONTENT [CReq]]), true. exact (f_equal (fun c => N.eqb c 0) refuted_content). Qed.
+
+(* ---- ties to the current source text ---------------------------------------------------------------------- *)
+Theorem C12_pin_escape_chain : gbnf_escape_chain = [([c_bs], [c_bs; c_bs]); ([c_dq], [c_bs; c_dq])].
+Proof. exact pin_escape_chain. Qed.
 
 Theorem C12_pin_priority :
   gbnf_chain_priority = [[cls_Const]; [cls_Enum]; [cls_Regex]; [cls_Type]; [cls_Date; cls_Iso]].
 Proof. exact pin_priority. Qed.
+
+Theorem C12_pin_dispatch :
+  map fst gbnf_dispatch = [cls_Required; cls_Optional; cls_Enum; cls_Const; cls_Type; cls_Regex; cls_Dir; cls_Append;
+                           cls_Range; cls_MaxLen; cls_MinLen; cls_Date; cls_Iso].
+Proof. exact pin_dispatch_classes. Qed.
+
+Theorem C12_pin_schema_templates_closed :
+  forallb (fun e : str * list gpart =>
+             known_guard (fst e) &&
+             forallb (fun p => match p with PLit _ => true | PHole h => known_hole h end) (snd e)) gbnf_schema_prog = true.
+Proof. exact pin_schema_prog_closed. Qed.
